@@ -74,7 +74,10 @@ PastEndIsLineEnd == \A l \in 0..(NumLines - 1) : FromPos(l, LineLen16(l) + 1) = 
                                                   /\ FromPos(l, LineLen16(l) + 7) = FromPos(l, LineLen16(l))
 OnlyLfCrCrlfEndLines == NumLines = 1 + Cardinality({i \in 1..N : text[i] = "LF"})
                                      + Cardinality({i \in 1..N : text[i] = "CR" /\ ~(i < N /\ text[i + 1] = "LF")})
-Laws == RoundTrip /\ Monotone /\ PastEndIsLineEnd /\ OnlyLfCrCrlfEndLines
+\* the parameterised formulation used on recorded data (PosRef.tla, C09) is the same function
+PR == INSTANCE PosRef
+AgreesWithPosRef == \A i \in 1..(N + 1) : PR!Pos(text, Off(i)) = <<LineOf(i), ColOf(i)>>
+Laws == RoundTrip /\ Monotone /\ PastEndIsLineEnd /\ OnlyLfCrCrlfEndLines /\ AgreesWithPosRef
 
 (* ---------------- the expected tables, one JSON line per text ---------------- *)
 ToTable   == [i \in 1..(N + 1) |-> <<Off(i), LineOf(i), ColOf(i)>>]
